@@ -257,3 +257,103 @@ def c13_4(R):
             R.ok("slot-scan-exhaustive", b.name, "for slot in self.slots.iter_mut()")
         else:
             R.fail([b.name, "slot-scan", why], "%s does not scan all connecting slots (%s): an entry behind a hole is never found and its slot leaks" % (name, why), where=b.where(), instance="slot-scan-exhaustive")
+
+
+@rule("C13.5", ["C13"], ["E3", "E4"], "an abandoned connect releases its per-address slot; a SYN-ACK releases exactly the slot it answers",
+      "UtpSocket::connect creates DropGuardSendBeforeDeath(ControlRequest::ConnectDropped(remote, token)) from the same remote and token as the ConnectRequest it sent, on the socket's control "
+      "channel, and disarms it only after the reply was received; on_control's ConnectDropped arm pops by that token and removes an emptied per-address entry; on_maybe_connect_ack pops by "
+      "msg.header.ack_nr (the SYN's sequence number stored in Connecting.seq_nr) and removes an emptied entry; if the requester is gone the inserted stream key is removed again.")
+def c13_5(R):
+    F = R.facts
+    found = False
+    for b in fn_bodies(F, "socket::UtpSocket::connect"):
+        guards = [t for t in b.calls() if call_matches(t, ("utils::DropGuardSendBeforeDeath::new",))]
+        sends = [t for t in b.calls() if call_matches(t, ("UnboundedSender::send",))]
+        if not guards:
+            continue
+        found = True
+        g = guards[0]
+        gm = trace(b, g.args[0])
+        req = None
+        for s_ in sends:
+            m = trace(b, s_.args[1])
+            if m.kind == "rv" and m.root[1].rv.kind == "agg" and m.root[1].rv.j.get("variant") == "ConnectRequest":
+                req = m
+        okp = False
+        detail = "guard=%s" % gm.describe()[:40]
+        if gm.kind == "rv" and gm.root[1].rv.kind == "agg" and gm.root[1].rv.j.get("variant") == "ConnectDropped" and req is not None:
+            ga = [trace(b, o).describe() for o in gm.root[1].rv.ops[:2]]
+            ra = [trace(b, o).describe() for o in req.root[1].rv.ops[:2]]
+            detail = "ConnectDropped(%s) vs ConnectRequest(%s)" % (",".join(ga), ",".join(ra))
+            okp = ga == ra and trace(b, g.args[1]).last_field == "UtpSocket.control_requests"
+        if okp:
+            R.ok("connect-guard-pairs-with-request", "UtpSocket::connect", detail)
+        else:
+            R.fail(["socket::UtpSocket::connect", "guard-vs-request", detail], "the ConnectDropped guard does not carry the same (remote, token) as the ConnectRequest (or goes to another channel): an abandoned connect never frees its slot", where=g.where(), instance="connect-guard-pairs-with-request")
+        dis = [t for t in b.calls() if call_matches(t, ("utils::DropGuardSendBeforeDeath::disarm",))]
+        awaits = [t.bb for t in b.calls() if call_matches(t, ("IntoFuture::into_future",)) and "oneshot::Receiver" in " ".join(t.j.get("argtys", []))]
+        dom = b.dominators()
+        if dis and awaits and all(any(a in dom.get(d.bb, ()) for a in awaits) for d in dis) and all(d.bb in b.reachable(g.bb) for d in dis):
+            R.ok("disarm-only-after-reply", "UtpSocket::connect", "disarm() is dominated by the await of the reply")
+        else:
+            R.fail(["socket::UtpSocket::connect", "disarm-before-reply"], "the connect guard is disarmed before the dispatcher's reply arrived: cancelling the connect in between leaks the slot", where=(dis[0].where() if dis else b.where()), instance="disarm-only-after-reply")
+    if not found:
+        R.fail(["socket::UtpSocket::connect", "no-ConnectDropped-guard"], "UtpSocket::connect no longer installs a ConnectDropped drop guard", instance="connect-guard-pairs-with-request")
+    # on_control ConnectDropped
+    okd = False
+    for b in fn_bodies(F, D + "::on_control"):
+        for t in b.calls():
+            if call_matches(t, ("socket::ConnectingPerAddr::pop_by_token",)):
+                tk = trace(b, t.args[1])
+                rem = [x for x in b.calls() if call_matches(x, ("OccupiedEntry::remove",)) and x.bb in b.reachable(t.bb)]
+                guarded = False
+                for x in rem:
+                    ds = [d for c, truth, d, *_ in controlling(b, x.bb)]
+                    if any("is_some=true" in d for d in ds) and any("ConnectingPerAddr::is_empty=true" in d for d in ds):
+                        guarded = True
+                if ("ConnectDropped" in tk.variants or any("ConnectDropped" in f for f in tk.fields)) and guarded:
+                    okd = True
+                    R.ok("connect-dropped=>slot-released", D + "::on_control", "pop_by_token(token of the request); entry removed when emptied")
+                else:
+                    R.fail([D + "::on_control", "ConnectDropped-arm", "token=%s remove-guarded=%s" % (tk.describe()[:40], guarded)], "ConnectDropped does not release the slot of the token it carries (or drops a non-empty per-address entry)", where=t.where(), instance="connect-dropped=>slot-released")
+    if not okd:
+        R.fail([D + "::on_control", "no-pop_by_token"], "ConnectDropped no longer pops the connecting slot", instance="connect-dropped=>slot-released")
+    ack = R.body(D + "::on_maybe_connect_ack")
+    pops = [t for t in ack.calls() if call_matches(t, ("socket::ConnectingPerAddr::pop",))]
+    R.floor("ConnectingPerAddr::pop in on_maybe_connect_ack", len(pops), 1)
+    for t in pops:
+        k = trace(ack, t.args[1])
+        if k.fields[-2:] == ["UtpMessage.header", "UtpHeader.ack_nr"] or k.last_field == "UtpHeader.ack_nr":
+            R.ok("synack-matched-by-ack_nr", ack.name, "pop(msg.header.ack_nr)")
+        else:
+            R.fail([ack.name, "pop-key", k.describe()[:50]], "the SYN-ACK is matched to a pending connect by something other than the acknowledged SYN sequence number", where=t.where(), instance="synack-matched-by-ack_nr")
+    # requester gone => key removed
+    ins = [t for t in ack.calls() if call_on_field(ack, t, ("HashMap::insert",), "Dispatcher.streams")]
+    rem = [t for t in ack.calls() if call_on_field(ack, t, ("HashMap::remove",), "Dispatcher.streams")]
+    if ins and rem and trace(ack, rem[0].args[1]).root[:2] == trace(ack, ins[0].args[1]).root[:2] and any("is_ok=false" in d or "is_err=true" in d for c, truth, d, *_ in controlling(ack, rem[0].bb)):
+        R.ok("requester-gone=>key-removed", ack.name, "failed send to the connector removes the inserted key")
+    else:
+        R.fail([ack.name, "requester-gone-without(streams.remove(recv_key))"], "when the connecting caller is gone the freshly inserted stream key is not removed", where=ack.where(), instance="requester-gone=>key-removed")
+    # Connecting.seq_nr is the SYN's seq_nr
+    okq = False
+    for b in fn_bodies(F, D + "::on_control"):
+        for s in b.stmts():
+            if s.rv.kind == "agg" and s.rv.j.get("adt") == "socket::Connecting":
+                i = s.rv.j["fields"].index("seq_nr")
+                t = trace(b, s.rv.ops[i])
+                if t.last_field == "UtpHeader.seq_nr":
+                    okq = True
+                # `header` is built on the spot: the trace descends into its aggregate - compare with the header's own seq_nr operand
+                for s2 in b.stmts():
+                    if s2.rv.kind == "agg" and s2.rv.j.get("adt") == "raw::UtpHeader":
+                        t2 = trace(b, s2.rv.ops[s2.rv.j["fields"].index("seq_nr")])
+                        if t2.root[:2] == t.root[:2] and t2.kind == "call":
+                            okq = True
+                j = s.rv.j["fields"].index("token")
+                tt = trace(b, s.rv.ops[j])
+                if not ("ConnectRequest" in tt.variants or any("ConnectRequest" in f for f in tt.fields)):
+                    okq = False
+    if okq:
+        R.ok("pending-connect-keyed-by-syn-seq", D + "::on_control", "Connecting{seq_nr: header.seq_nr, token: the request's token}")
+    else:
+        R.fail([D + "::on_control", "Connecting-fields"], "a pending connect is not recorded under the SYN's sequence number and the request's token", instance="pending-connect-keyed-by-syn-seq")
